@@ -108,7 +108,8 @@ def level_recipe(triple, rng, nmods=None, module_override=None, ovh_override=Non
                 "vector": {"id": "vec", "seq": gen.rotate(vec, rng.randrange(len(vec)))},
                 "modules": [dict(module_override) if (isinstance(module_override, dict) and i == 0) else
                             {"id": ("ins%d" % (i + 1)) if not same_id else same_id, "seq": gen.rotate(m, rng.randrange(len(m)))} for i, m in enumerate(mods)],
-                "id": "lvl%d" % rng.randrange(100000), "name": "lvl"}
+                # (a product is often given the name of the part it was built around)
+                "id": ("lvl%d" % rng.randrange(100000)) if rng.random() < 0.75 else ("ins1" if not same_id else same_id), "name": "lvl"}
     return None
 
 
